@@ -4,25 +4,44 @@ import numpy as np
 from common import *
 
 ID = 'C19'
-COQ_FILES = ['Base/Mat.v', 'Base/ListX.v', 'Model/Components.v', 'Proofs/Components.v', 'Model/Nbs.v', 'Proofs/Nbs.v',
-             'Proofs/NbsReal.v', 'Properties/C19.v']
+COQ_FILES = ['Base/Mat.v', 'Base/ListX.v', 'Model/Components.v', 'Proofs/Components.v', 'Model/Nbs.v', 'Model/NbsApi.v',
+             'Proofs/Nbs.v', 'Proofs/NbsReal.v', 'Proofs/NbsFull.v', 'Properties/C19.v']
 THEOREMS = ['C19_adj_support_iff_supra_and_component', 'C19_adj_label_is_component_index', 'C19_every_label_used', 'C19_links_are_component_sizes', 'C19_links_are_connection_counts',
             'C19_pval_def', 'C19_null_is_max_component', 'C19_swap_decision', 'C19_swap_groups_tail_symmetry',
             'C19_reorder_within_group_invariant', 'C19_reorder_pairs_invariant', 'C19_ratio_gt_sound',
-            'C19_t_gt_thresh_unpaired', 'C19_t_gt_thresh_paired']
-RULE = ('stacks of symmetric integer matrices: n=3..7 nodes, 2..7 subjects per group (equal when paired), entries 0..5 plus '
+            'C19_t_gt_thresh_unpaired', 'C19_t_gt_thresh_paired',
+            'C19_pval_is_fraction_of_null_ge_links', 'C19_null_is_relabelled_max', 'C19_relabel_unpaired_is_permutation',
+            'C19_relabel_paired_exchanges_pairs', 'C19_raises_iff', 'C19_returns_iff', 'C19_call_returns_iff', 'C19_exception_raised',
+            'C19_degenerate_unreachable', 'C19_swap_groups_tail_total', 'C19_reorder_within_group_total',
+            'C19_reorder_pairs_total']
+RULE = ('stacks of symmetric matrices: n=3..7 nodes, 2..7 subjects per group (equal when paired), integer entries 0..5 plus '
         'planted effects of either sign on 1..4 connections (family multi: strong effects on 2-3 node-disjoint paths under a random numbering, giving several components), planted zero-variance connections (equal constants, unequal '
-        'constants, constant in one group only); thresholds k+0.37 (never attainable exactly), occasionally negative; '
-        'tail both/left/right; paired/unpaired; k=8..24 recorded permutations (RandomState subclass passed as seed); plus a '
+        'constants, constant in one group only); thresholds k+0.37, occasionally negative; '
+        'tail both/left/right; paired/unpaired; k=8..24 recorded permutations (RandomState subclass passed as seed); a '
         'single-connection family (n=2, groups of 1..5 subjects, many degenerate vectors) that exercises the t decision '
-        'alone. non-trivial = at least one suprathreshold connection (the call returns); distinct by hash of all arguments')
-ASSUMES = ['data are small integers: group sums, differences and the tests `denom == 0` / zero sample variance are exact in binary64; '
-           'cases in which some |t - thresh| < 1e-7 (observed or permuted) are skipped (none expected with thresholds k+0.37)',
+        'alone; exact_tie: the threshold EQUALS the t statistic of a planted connection whose binary64 evaluation is exact by '
+        'construction (unpaired 2+2 subjects with pooled variance a perfect square, unpaired 8+8 with SS 14/56/126, paired 4 with '
+        'differences d+c*[3,-1,-1,-1], zero-variance connections and equal-mean connections with thresh = 0), next to a '
+        'strongly suprathreshold connection, so that `>` and `>=` differ on the observed and on the relabelled data; tiny_var: '
+        'dyadic data a + eps*z (sum z = 0, eps = 2^-22..2^-26) whose pooled denominator lies in (0, 1e-6), paired eps = 2^-8..2^-16; '
+        'dyadic: entries multiples of 1/8 in [-4,4] with dyadic thresholds (0, 0.5, 1, 2, k+0.375); int_dtype: int64 arrays; '
+        'verbose=True on every 7th case; reject: paired with unequal groups, tail strings outside both/left/right, inconsistent '
+        'shapes, k=0 (exception class and message compared with the model\'s exception code); nbs_parallel.nbs_bct on a slice of the cases. '
+        'non-trivial = at least one suprathreshold connection (the call returns); distinct by hash of all arguments')
+ASSUMES = ['data are integers or dyadic rationals with few bits: group sums, differences, squares and the tests `denom == 0` / zero '
+           'sample variance are exact in binary64. The oracle decides `t > thresh` in exact rational arithmetic. A connection with '
+           'exact t == thresh is used only when an exactness certificate holds (every intermediate of the code\'s formula - means, '
+           'deviations, squares, sums, variance quotients, square roots, the final quotient - is representable in binary64, so '
+           'correctly rounded IEEE arithmetic returns it exactly; or both means are equal, giving 0/denom = 0); otherwise, and when '
+           '0 < |t - thresh| < 1e-7, and for a paired connection whose sample_ss could cancel (ss < 1e-6 * sum(D^2) without certificate), '
+           'the case is skipped and counted (skipped_*)',
            'conventions of the code on degenerate connections are taken as the specification: unpaired with zero pooled variance '
            '-> t = 0; paired with constant difference c -> t = sign(c)*inf (c = 0: nan, never suprathreshold); a group with a '
            'single subject -> nan, never suprathreshold',
            'a relabelling of subjects is read off the recorded draw: rng.permutation(nx+ny) (first nx indices form group 1) or, '
-           'paired, sign(0.5 - rng.rand(1,nx)) (pairs with -1 are exchanged)']
+           'paired, sign(0.5 - rng.rand(1,nx)) (pairs with -1 are exchanged)',
+           'nbs_parallel.nbs_bct (outside the property\'s anchors, same statistic code duplicated) is tied by harness only: same adj as '
+           'bct.nbs_bct, null values = model / oracle on the draws RandomState(perm_seed[u]) produces; its p-values are a known finding']
 TRUSTED = ['C19_t_gt_thresh_unpaired / C19_t_gt_thresh_paired (the square-root-free decision equals `thresh < t` with a real '
            'square root) depend on the standard-library axioms of Coq\'s real numbers (ClassicalDedekindReals.sig_not_dec, '
            'sig_forall_dec, FunctionalExtensionality.functional_extensionality_dep); every other C19 theorem is closed under '
@@ -30,6 +49,10 @@ TRUSTED = ['C19_t_gt_thresh_unpaired / C19_t_gt_thresh_paired (the square-root-f
 
 TAILS = ['both', 'left', 'right']
 SWAP = {'both': 'both', 'left': 'right', 'right': 'left'}
+# exception -> code of Model/NbsApi.v (exn_code)
+EXN = {'Tail must be both, left, right': 1, 'Population matrices are of inconsistent size': 2,
+       'Population matrices must be an equal size': 3, 'Unsuitable threshold': 4, 'True matrix is degenerate': 5}
+EXN_NAME = {1: 'tail', 2: 'shape', 3: 'paired_size', 4: 'unsuitable', 5: 'degenerate', 6: 'draw', 7: 'zero_division'}
 
 
 def quiet(f, *a, **k):
@@ -37,10 +60,9 @@ def quiet(f, *a, **k):
         return call(f, *a, _t=60.0, **k)
 
 
-# ---------------------------------------------------------------- independent oracle
+# ---------------------------------------------------------------- independent oracle (exact rationals)
 def t_exact(a, b, paired):
     """(kind, num, den2): t = num/sqrt(den2) exactly; kind in 'ok','zero','pinf','ninf','nan' (conventions in ASSUMES)"""
-    a = [Fraction(int(v)) for v in a]; b = [Fraction(int(v)) for v in b]
     if paired:
         d = [p - q for p, q in zip(a, b)]
         n = len(d)
@@ -64,19 +86,172 @@ def t_exact(a, b, paired):
     return ('ok', m1 - m2, den2)
 
 
-def t_value(a, b, paired, tail):
+def sgn(v):
+    return (v > 0) - (v < 0)
+
+
+def cmp_t(v, den2, thr):
+    """sign of v/sqrt(den2) - thr, exactly"""
+    sv, st = sgn(v), sgn(thr)
+    if sv != st:
+        return 1 if sv > st else -1
+    if sv == 0:
+        return 0
+    c = sgn(v * v - thr * thr * den2)
+    return c if sv > 0 else -c
+
+
+# ---- exactness certificate of the code's binary64 evaluation
+def rep(f):
+    return Fraction(float(f)) == f
+
+
+def sum_exact(terms):
+    """every partial sum, in any order, is representable"""
+    terms = list(terms)
+    if not terms:
+        return True
+    if any(t.denominator & (t.denominator - 1) for t in terms):
+        return False
+    kk = max(t.denominator.bit_length() - 1 for t in terms)
+    return all(rep(t) for t in terms) and sum(abs(t) for t in terms) * (1 << kk) < (1 << 53)
+
+
+def isq(n):
+    r = math.isqrt(n)
+    return r if r * r == n else None
+
+
+def sqrt_exact(f):
+    if f < 0:
+        return None
+    a, b = isq(f.numerator), isq(f.denominator)
+    if a is None or b is None:
+        return None
+    r = Fraction(a, b)
+    return r if rep(r) else None
+
+
+def paired_ss_exact(D):
+    """sample_ss = np.sum(D**2) - np.sum(D)**2 / n is computed exactly"""
+    n = len(D)
+    if not (sum_exact(D) and all(rep(v * v) for v in D) and sum_exact([v * v for v in D])):
+        return False
+    s1 = sum(D)
+    s2 = sum(v * v for v in D)
+    return rep(s1 * s1) and rep(s1 * s1 / n) and rep(s2 - s1 * s1 / n)
+
+
+def float_exact_t(a, b, paired):
+    """the value (before the tail is applied) binary64 returns for the code's formula when no operation rounds; None = no certificate"""
+    if paired:
+        D = [p - q for p, q in zip(a, b)]
+        n = len(D)
+        if not (all(rep(p) and rep(q) for p, q in zip(a, b)) and paired_ss_exact(D)):
+            return None
+        s1 = sum(D)
+        ss = sum(v * v for v in D) - s1 * s1 / n
+        mean = s1 / n
+        if not rep(mean):
+            return None
+        if mean == 0 and ss > 0:
+            return Fraction(0)                      # 0/std*sqrt(n) = 0
+        V = ss / (n - 1)
+        if not rep(V):
+            return None
+        std = sqrt_exact(V)
+        rn = sqrt_exact(Fraction(n))
+        if std is None or std == 0 or rn is None:
+            return None
+        z = mean / std
+        return z * rn if rep(z) and rep(z * rn) else None
+    n1, n2 = len(a), len(b)
+    if not (sum_exact(a) and sum_exact(b)):
+        return None
+    m1, m2 = sum(a) / n1, sum(b) / n2
+    if m1 == m2:
+        return Fraction(0)                          # both means round to the same float: 0/denom = 0 (denom > 0)
+    tot = Fraction(0)
+    for g, m, n in ((a, m1, n1), (b, m2, n2)):
+        if not rep(m):
+            return None
+        dev = [v - m for v in g]
+        if not (all(rep(v) and rep(v * v) for v in dev) and sum_exact([v * v for v in dev])):
+            return None
+        SS = sum(v * v for v in dev)
+        if not rep(SS / (n - 1)):
+            return None
+        tot += SS
+    P = tot / (n1 + n2 - 2)
+    if not (rep(tot) and rep(P)):
+        return None
+    s = sqrt_exact(P)
+    r1, r2 = Fraction(1, n1), Fraction(1, n2)
+    if s is None or not (rep(r1) and rep(r2) and rep(r1 + r2)):
+        return None
+    q = sqrt_exact(r1 + r2)
+    if q is None or not rep(s * q) or s * q == 0:
+        return None
+    res = (m1 - m2) / (s * q)
+    return res if rep(m1 - m2) and rep(res) else None
+
+
+class NearTie(Exception):
+    pass
+
+
+STAT = {}
+
+
+def decide(a, b, paired, tail, thr):
+    """exact decision `t > thr` for one connection (lists of Fractions); NearTie(reason) when binary64 cannot be trusted to agree"""
     kind, num, den2 = t_exact(a, b, paired)
     if kind == 'nan':
-        return float('nan')
+        return False
     if kind == 'zero':
-        t = 0.0
-    elif kind == 'pinf':
-        t = float('inf')
-    elif kind == 'ninf':
-        t = float('-inf')
-    else:
-        t = float(num) / math.sqrt(float(den2))
-    return abs(t) if tail == 'both' else -t if tail == 'left' else t
+        return 0 > thr
+    if kind in ('pinf', 'ninf'):
+        if not paired_ss_exact([p - q for p, q in zip(a, b)]):
+            raise NearTie('degenerate_uncertified')
+        t = float('inf') if kind == 'pinf' else float('-inf')
+        t = abs(t) if tail == 'both' else -t if tail == 'left' else t
+        return t > thr
+    if paired:
+        D = [p - q for p, q in zip(a, b)]
+        ss = den2 * len(D) * (len(D) - 1)
+        if ss < Fraction(1, 10 ** 6) * sum(v * v for v in D) and not paired_ss_exact(D):
+            raise NearTie('paired_cancellation')          # sample_ss = sum(D^2) - sum(D)^2/n may lose all its digits
+    v = abs(num) if tail == 'both' else -num if tail == 'left' else num
+    c = cmp_t(v, den2, thr)
+    if c == 0:
+        ft = float_exact_t(a, b, paired)
+        if ft is None:
+            raise NearTie('tie_uncertified')
+        fv = abs(ft) if tail == 'both' else -ft if tail == 'left' else ft
+        if fv != thr:
+            raise NearTie('tie_uncertified')           # cannot happen: the certified value is the exact t
+        STAT['exact_tie_decided'] = STAT.get('exact_tie_decided', 0) + 1
+        return False
+    if thr == 0:
+        # t > 0 is decided by the sign of the difference of the two means (of the mean difference), each a correctly
+        # rounded quotient of an exact sum: reliable unless that difference is below the rounding of the means
+        if abs(num) < Fraction(1, 10 ** 12) * max([1] + [abs(q) for q in a + b]):
+            raise NearTie('near_tie')
+        return c > 0
+    tf = float(v) / math.sqrt(float(den2))
+    if abs(tf - float(thr)) < 1e-7 * max(1.0, abs(float(thr))):
+        raise NearTie('near_tie')
+    return c > 0
+
+
+def supra_edges(xd, yd, n, thr, tail, paired):
+    """xd[(i,j)] = vector over subjects (Fractions). returns set of suprathreshold upper-triangle cells"""
+    S = set()
+    for i in range(n):
+        for j in range(i + 1, n):
+            if decide(xd[(i, j)], yd[(i, j)], paired, tail, thr):
+                S.add((i, j))
+    return S
 
 
 def bfs_components(n, S):
@@ -100,45 +275,203 @@ def bfs_components(n, S):
     return comps
 
 
-class NearTie(Exception):
-    pass
-
-
-def supra_edges(xd, yd, n, thr, tail, paired):
-    """xd[(i,j)] = vector over subjects. returns set of suprathreshold upper-triangle cells"""
-    S = set()
-    for i in range(n):
-        for j in range(i + 1, n):
-            t = t_value(xd[(i, j)], yd[(i, j)], paired, tail)
-            if math.isnan(t):
-                continue
-            if math.isfinite(t) and abs(t - thr) < 1e-7:
-                raise NearTie()
-            if t > thr:
-                S.add((i, j))
-    return S
-
-
 def max_links(n, S):
     comps = bfs_components(n, S)
     return max([sum(1 for (i, j) in S if i in c) for c in comps] or [0])
 
 
 def edge_vectors(x, n):
-    return {(i, j): [int(v) for v in x[i, j, :]] for i in range(n) for j in range(i + 1, n)}
+    return {(i, j): [Fraction(float(v)) for v in x[i, j, :]] for i in range(n) for j in range(i + 1, n)}
+
+
+def relabel(xd, yd, d, paired, nx):
+    """the two groups under one recorded draw"""
+    if paired:
+        s = np.sign(0.5 - np.array(d).reshape(-1))
+        xp = {e: [a if s[q] > 0 else b for q, (a, b) in enumerate(zip(xd[e], yd[e]))] for e in xd}
+        yp = {e: [b if s[q] > 0 else a for q, (a, b) in enumerate(zip(xd[e], yd[e]))] for e in xd}
+    else:
+        xp = {e: [(xd[e] + yd[e])[q] for q in d[:nx]] for e in xd}
+        yp = {e: [(xd[e] + yd[e])[q] for q in d[nx:]] for e in xd}
+    return xp, yp
 
 
 # ---------------------------------------------------------------- generators
-def make_stack(r, n, m, eff):
-    X = r.randint(0, 6, size=(n, n, m)).astype(float) + eff[:, :, None]
-    for s in range(m):
+def symmetrize(X):
+    for s in range(X.shape[2]):
         U = np.triu(X[:, :, s], 1)
         X[:, :, s] = U + U.T
     return X
 
 
+def make_stack(r, n, m, eff):
+    return symmetrize(r.randint(0, 6, size=(n, n, m)).astype(float) + eff[:, :, None])
+
+
+def setc(X, i, j, vec):
+    X[i, j, :] = vec; X[j, i, :] = vec
+
+
+def tail_adj(t, tail):
+    return abs(t) if tail == 'both' else -t if tail == 'left' else t
+
+
+def gen_exact_tie(r):
+    """thresh equals an attainable t whose float evaluation is exact by construction; a strong connection shares a node with it"""
+    n = int(r.randint(3, 6))
+    tail = TAILS[int(r.randint(0, 3))]
+    sg = -1 if tail == 'left' else 1 if tail == 'right' else int(r.choice([-1, 1]))   # sign of the effects that count
+    var = int(r.randint(0, 5))
+    cells = [(i, j) for i in range(n) for j in range(i + 1, n)]
+    r.shuffle(cells)
+    tie = cells[0]
+    strong = [c for c in cells[1:] if set(c) & set(tie)][0]
+    paired = var == 3
+    if var in (0, 1):                                   # unpaired 2+2, pooled variance a perfect square / thr = 0 families
+        nx = ny = 2
+        x = symmetrize(r.randint(0, 4, size=(n, n, 2)).astype(float)); y = symmetrize(r.randint(0, 4, size=(n, n, 2)).astype(float))
+        if var == 0:
+            d1, d2, s = [(2, 0, 1), (0, 2, 1), (4, 0, 2), (0, 4, 2), (6, 8, 5), (8, 6, 5), (2, 0, 1)][int(r.randint(0, 7))]
+            delta = sg * int(r.randint(1, 5)) * (5 if s == 5 else 1) * (2 if s == 2 and r.rand() < 0.5 else 1)
+            c = int(r.randint(0, 3))
+            # means: c + delta + d1/2  and  c + d2/2 (shifted to keep integers): x = [a, a+d1], y = [b, b+d2]
+            b = c; a = c + delta + (d2 - d1) // 2
+            vx = [a, a + d1]; vy = [b, b + d2]
+            if r.rand() < 0.5: vx.reverse()
+            if r.rand() < 0.5: vy.reverse()
+            setc(x, tie[0], tie[1], vx); setc(y, tie[0], tie[1], vy)
+            thr = tail_adj(Fraction(delta, s), tail)
+        else:                                           # thr = 0: zero pooled variance (t = 0 by the code's rule) or equal means
+            c1, c2 = int(r.randint(0, 5)), int(r.randint(0, 5))
+            if r.rand() < 0.5:
+                setc(x, tie[0], tie[1], [c1, c1]); setc(y, tie[0], tie[1], [c2, c2])
+            else:
+                setc(x, tie[0], tie[1], [c1, c1 + 2]); setc(y, tie[0], tie[1], [c1 + 1, c1 + 1])
+            thr = Fraction(0)
+        setc(x, strong[0], strong[1], [10 + 9 * (sg > 0), 11 + 9 * (sg > 0)]); setc(y, strong[0], strong[1], [10 + 9 * (sg < 0), 11 + 9 * (sg < 0)])
+    elif var == 2:                                      # unpaired 8+8: SS in {14, 56, 126} against a constant group: s in {1,2,3}
+        nx = ny = 8
+        x = symmetrize(r.randint(0, 4, size=(n, n, 8)).astype(float)); y = symmetrize(r.randint(0, 4, size=(n, n, 8)).astype(float))
+        cc, s = [(4, 1), (8, 2), (12, 3), (4, 1)][int(r.randint(0, 4))]
+        base = int(r.randint(0, 3))
+        vary = [float(base)] * 7 + [float(base + cc)]; r.shuffle(vary)      # mean base + cc/8, SS = 7cc^2/8, pooled = (cc/4)^2 = s^2
+        tt = Fraction(sg * int(r.randint(1, 9)), 2)     # the wanted t = (mean x - mean y) / (s * sqrt(1/8 + 1/8)) = 2 (mean x - mean y) / s
+        vary_is_x = r.rand() < 0.5
+        dv = tt * s / 2 if vary_is_x else -tt * s / 2   # mean(vary) - const
+        const = [float(Fraction(base) + Fraction(cc, 8) - dv)] * 8
+        setc(x, tie[0], tie[1], vary if vary_is_x else const); setc(y, tie[0], tie[1], const if vary_is_x else vary)
+        thr = tail_adj(tt, tail)
+        hi = [20.0 + int(v) for v in r.randint(0, 2, size=8)]; lo = [float(v) for v in r.randint(0, 2, size=8)]
+        setc(x, strong[0], strong[1], hi if sg > 0 else lo); setc(y, strong[0], strong[1], lo if sg > 0 else hi)
+    elif var == 3:                                      # paired, 4 pairs, D = d + c*[3,-1,-1,-1]: ss = 12c^2, t = d/c
+        nx = ny = 4
+        y = symmetrize(r.randint(0, 4, size=(n, n, 4)).astype(float)); x = symmetrize(r.randint(0, 4, size=(n, n, 4)).astype(float))
+        c = int(r.choice([1, 2])); d = sg * int(r.randint(1, 5)) * (c if r.rand() < 0.7 else 1)
+        D = [d + 3 * c, d - c, d - c, d - c]; r.shuffle(D)
+        setc(x, tie[0], tie[1], y[tie[0], tie[1], :] + np.array(D, float))
+        thr = tail_adj(Fraction(d, c), tail)
+        setc(x, strong[0], strong[1], y[strong[0], strong[1], :] + sg * np.array([20, 21, 20, 22], float))
+    else:                                               # thr = 0, unpaired, larger groups: constants and equal means
+        nx, ny = int(r.randint(2, 6)), int(r.randint(2, 6))
+        x = symmetrize(r.randint(0, 3, size=(n, n, nx)).astype(float)); y = symmetrize(r.randint(0, 3, size=(n, n, ny)).astype(float))
+        setc(x, tie[0], tie[1], [int(r.randint(0, 5))] * nx); setc(y, tie[0], tie[1], [int(r.randint(0, 5))] * ny)
+        thr = Fraction(0)
+        setc(x, strong[0], strong[1], [20 * (sg > 0) + int(v) for v in r.randint(0, 2, size=nx)])
+        setc(y, strong[0], strong[1], [20 * (sg < 0) + int(v) for v in r.randint(0, 2, size=ny)])
+    k = int(r.randint(8, 25))
+    return dict(n=n, x=x, y=y, thr=float(thr), tail=tail, paired=paired, k=k)
+
+
+def gen_tiny_var(r):
+    """dyadic data whose pooled denominator is positive but below 1e-6 (unpaired) / tiny sample_ss (paired)"""
+    n = int(r.randint(3, 6))
+    paired = r.rand() < 0.3
+    nx = int(r.randint(2, 7)); ny = nx if paired else int(r.randint(2, 7))
+    x = make_stack(r, n, nx, np.zeros((n, n))); y = make_stack(r, n, ny, np.zeros((n, n)))
+    cells = [(i, j) for i in range(n) for j in range(i + 1, n)]
+    r.shuffle(cells)
+
+    def zsum0(m):
+        z = [int(v) for v in r.randint(-2, 3, size=m - 1)]
+        z.append(-sum(z))
+        if not any(z):
+            z[0] += 1; z[-1] -= 1
+        return np.array(z, float)
+    for (i, j) in cells[:int(r.randint(1, 4))]:
+        if paired:
+            eps = 2.0 ** -int(r.choice([8, 12, 16]))
+            d = int(r.randint(-4, 5))
+            setc(x, i, j, y[i, j, :] + d + eps * zsum0(nx))
+        else:
+            eps = 2.0 ** -int(r.choice([22, 24, 26]))
+            a, c = int(r.randint(0, 6)), int(r.randint(0, 6))
+            if r.rand() < 0.15:
+                c = a
+            setc(x, i, j, a + eps * zsum0(nx)); setc(y, i, j, c + eps * zsum0(ny))
+    thr = float(r.choice([0.375, 1.375, 2.375, 3.375, 0.0, 100.0]))
+    return dict(n=n, x=x, y=y, thr=thr, tail=TAILS[int(r.randint(0, 3))], paired=bool(paired), k=int(r.randint(8, 17)))
+
+
+def gen_dyadic(r):
+    """real-valued data: multiples of 1/8 in [-4, 4] plus effects; dyadic thresholds, several of them attainable"""
+    n = int(r.randint(3, 7))
+    paired = r.rand() < 0.4
+    nx = int(r.randint(2, 7)); ny = nx if paired else int(r.randint(2, 7))
+    if r.rand() < 0.3:
+        nx = ny = int(r.choice([2, 4]))
+    eff = np.zeros((n, n))
+    for _ in range(int(r.randint(1, 5))):
+        i, j = [int(v) for v in r.randint(n, size=2)]
+        if i != j:
+            eff[i, j] = eff[j, i] = float(r.choice([-4, -3.5, 3, 4.25, 6]))
+    x = symmetrize(r.randint(-32, 33, size=(n, n, nx)) / 8.0 + eff[:, :, None]); y = symmetrize(r.randint(-32, 33, size=(n, n, ny)) / 8.0)
+    thr = float(r.choice([0.375, 1.375, 2.375, 0.5, 1.0, 2.0, 0.0, -0.625]))
+    return dict(n=n, x=x, y=y, thr=thr, tail=TAILS[int(r.randint(0, 3))], paired=bool(paired), k=int(r.randint(8, 25)))
+
+
+def gen_reject(r):
+    """calls the code must refuse (or k = 0): which exception, compared with the model's exception code"""
+    c = gen_case(r, 'mixed')
+    n, x, y = c['n'], c['x'], c['y']
+    kind = ['paired_unequal', 'bad_tail', 'bad_shape', 'k0', 'bad_tail+shape', 'paired_unequal+k0', 'bad_shape+paired_unequal'][int(r.randint(0, 7))]
+    c['kind'] = kind
+    if 'paired_unequal' in kind:
+        c['paired'] = True
+        if x.shape[2] == y.shape[2]:
+            c['y'] = y = np.concatenate([y, y[:, :, :1]], axis=2)
+    if 'bad_tail' in kind:
+        c['tail'] = str(r.choice(['two', 'Both', '', 'rigth', 'LEFT']))
+    if 'shape' in kind:
+        v = int(r.randint(0, 5))
+        if v == 0:                                      # x is n x (n+1)
+            c['x'] = np.concatenate([x, x[:, :1, :]], axis=1)
+        elif v == 3:                                    # y is n x (n+1): only the last comparison of the chain fails
+            c['y'] = np.concatenate([y, y[:, :1, :]], axis=1)
+        elif v == 4:                                    # x is (n+1) x n
+            c['x'] = np.concatenate([x, x[:1, :, :]], axis=0)
+        elif v == 1:                                    # y has one node more
+            m = y.shape[2]
+            c['y'] = symmetrize(r.randint(0, 6, size=(n + 1, n + 1, m)).astype(float))
+        else:                                           # y is (n+1) x n
+            c['y'] = np.concatenate([y, y[:1, :, :]], axis=0)
+    if 'k0' in kind:
+        c['k'] = 0
+    return c
+
+
 def gen_case(r, fam):
-    if fam == 'single_edge':
+    if fam == 'exact_tie':
+        c = gen_exact_tie(r)
+    elif fam == 'tiny_var':
+        c = gen_tiny_var(r)
+    elif fam == 'dyadic':
+        c = gen_dyadic(r)
+    elif fam == 'reject':
+        c = gen_reject(r)
+    elif fam == 'int_dtype':
+        c = gen_case(r, 'mixed')
+        c['x'] = c['x'].astype(np.int64); c['y'] = c['y'].astype(np.int64)
+    elif fam == 'single_edge':
         n = 2
         paired = r.rand() < 0.5
         nx = int(r.randint(1, 6)); ny = nx if paired else int(r.randint(1, 6))
@@ -157,8 +490,9 @@ def gen_case(r, fam):
             a, b = vec(nx) + int(r.randint(-3, 4)), vec(ny)
         x = np.zeros((2, 2, nx)); y = np.zeros((2, 2, ny))
         x[0, 1, :] = x[1, 0, :] = a; y[0, 1, :] = y[1, 0, :] = b
-        thr = float(r.choice([0.37, 1.37, 2.37, -0.63, -1.63, 0.0 + 0.37]))
+        thr = float(r.choice([0.37, 1.37, 2.37, -0.63, -1.63, 0.0, 0.0, 1.0, -1.0]))
         k = int(r.randint(1, 4))
+        c = dict(n=n, x=x, y=y, thr=thr, paired=bool(paired), k=k)
     else:
         n = int(r.randint(3, 8)) if fam != 'dense' else int(r.randint(5, 8))
         paired = (fam == 'paired') or (fam not in ('unpaired', 'unequal') and r.rand() < 0.35)
@@ -173,11 +507,11 @@ def gen_case(r, fam):
             eff = np.zeros((n, n))
             nx = int(r.randint(lo, 8)); ny = nx if paired else int(r.randint(lo, 8))
             p = [int(v) for v in r.permutation(n)]
-            sgn = int(r.choice([-1, 1]))
+            sgn_ = int(r.choice([-1, 1]))
             groups = [p[0:2], p[2:4], p[4:n]] if r.rand() < 0.6 else [p[0:3], p[3:n]]
             for g in groups:
                 for a, b in zip(g, g[1:]):
-                    eff[a, b] = eff[b, a] = sgn * int(r.choice([8, 9, 10]))
+                    eff[a, b] = eff[b, a] = sgn_ * int(r.choice([8, 9, 10]))
         else:
             for _ in range(int(r.randint(1, 5)) if fam != 'dense' else 2 * n):
                 i, j = [int(v) for v in r.randint(n, size=2)]
@@ -197,18 +531,21 @@ def gen_case(r, fam):
                 elif kind == 2:
                     x[i, j, :] = x[j, i, :] = int(r.randint(0, 9))
                 elif paired:
-                    c = int(r.choice([-3, -1, 1, 2]))
-                    x[i, j, :] = y[i, j, :] + c; x[j, i, :] = x[i, j, :]
+                    cst = int(r.choice([-3, -1, 1, 2]))
+                    x[i, j, :] = y[i, j, :] + cst; x[j, i, :] = x[i, j, :]
         thr = float(r.choice([0.37, 1.37, 1.37, 2.37, 2.37, 3.37, -0.63])) if fam != 'multi' else float(r.choice([3.37, 4.37]))
+        if fam == 'zero_variance' and r.rand() < 0.3:
+            thr = 0.0                                   # zero pooled variance gives t = 0 exactly: a tie at thresh = 0
         k = int(r.randint(8, 25))
-    tail = TAILS[int(r.randint(0, 3))]
-    seed = int(r.randint(1 << 30))
-    return dict(n=n, x=x, y=y, thr=thr, tail=tail, paired=bool(paired), k=k, seed=seed)
+        c = dict(n=n, x=x, y=y, thr=thr, paired=bool(paired), k=k)
+    c.setdefault('tail', TAILS[int(r.randint(0, 3))])
+    c.setdefault('seed', int(r.randint(1 << 30)))
+    return c
 
 
 def enc_stack(x):
-    n, _, m = x.shape
-    return ' '.join([str(m)] + [enc_mat([[int(v) for v in row] for row in x[:, :, s]]) for s in range(m)])
+    m = x.shape[2]
+    return ' '.join([str(m)] + [enc_mat([[Fraction(float(v)) for v in row] for row in x[:, :, s]], enc_q) for s in range(m)])
 
 
 def partition_of(adj):
@@ -222,43 +559,96 @@ def partition_of(adj):
     return sorted(sorted(v) for v in d.values())
 
 
+def exn_code(e):
+    import bct
+    if isinstance(e, bct.utils.BCTParamError):
+        return EXN.get(str(e), -1)
+    if isinstance(e, ZeroDivisionError):
+        return 7
+    return -1
+
+
+def model_line(x, y, thr, tail, paired, perms, rands):
+    tc = TAILS.index(tail) if tail in TAILS else 3
+    return ' '.join(['nbsf', str(tc), str(x.shape[0]), str(x.shape[1]), str(y.shape[0]), str(y.shape[1]), enc_stack(x), enc_stack(y),
+                     enc_q(thr), enc_bool(paired), str(len(perms))] + [enc_list(p) for p in perms] + [str(len(rands))] + [enc_list(q, enc_q) for q in rands])
+
+
 def run(ctx):
     import bct
+    import bct.nbs_parallel as npar
+    STAT.clear()
     r = ctx.nprng
-    fams = ['mixed', 'multi', 'paired', 'unpaired', 'multi', 'unequal', 'zero_variance', 'dense', 'multi', 'single_edge', 'single_edge']
-    N = ctx.scale(440, 4400)
+    fams = ['mixed', 'multi', 'paired', 'exact_tie', 'unpaired', 'multi', 'tiny_var', 'unequal', 'zero_variance', 'dense', 'exact_tie',
+            'multi', 'single_edge', 'dyadic', 'single_edge', 'reject', 'exact_tie', 'int_dtype', 'dyadic', 'tiny_var']
+    N = ctx.scale(600, 6000)
+    NPAR = ctx.scale(24, 240)                      # cases also run through nbs_parallel.nbs_bct
     lines, pend = [], []
+    npar_done = 0
     for t in range(N):
         fam = fams[t % len(fams)]
         c = gen_case(r, fam)
         n, x, y, thr, tail, paired, k, seed = c['n'], c['x'], c['y'], c['thr'], c['tail'], c['paired'], c['k'], c['seed']
+        verbose = (t % 7 == 3)
         nx, ny = x.shape[2], y.shape[2]
-        case = {'fn': 'nbs_bct', 'family': fam, 'n': n, 'x': x.astype(int).tolist(), 'y': y.astype(int).tolist(),
-                'thresh': thr, 'tail': tail, 'paired': paired, 'k': k, 'seed': seed}
+        case = {'fn': 'nbs_bct', 'family': fam, 'n': n, 'x': x.tolist(), 'y': y.tolist(),
+                'thresh': thr, 'tail': tail, 'paired': paired, 'k': k, 'seed': seed, 'verbose': verbose, 'dtype': str(x.dtype)}
+        # ---------------- rejection cases: exception class / message against the model's exception code
+        if fam == 'reject':
+            rec = Rec(seed)
+            try:
+                quiet(bct.nbs_bct, x, y, thr, k=k, tail=tail, paired=paired, verbose=verbose, seed=rec)
+                code = 0
+            except Timeout:
+                ctx.fail('nbs_bct:timeout', 'did not terminate', case); continue
+            except Exception as e:
+                code = exn_code(e)
+                err = repr(e)
+            ctx.case(case, nontrivial=False, sample_every=97)
+            ctx.count('family:reject'); ctx.count('reject:' + c['kind'])
+            shape_ok = x.shape[0] == x.shape[1] == y.shape[0] == y.shape[1]
+            must_refuse = (tail not in TAILS) or (not shape_ok) or (paired and nx != ny)
+            if must_refuse:
+                ctx.check(code in (1, 2, 3), 'nbs_bct:rejects', 'a call with %s must be refused with BCTParamError, got %s' % (c['kind'], 'a result' if code == 0 else err), case)
+            draws = [e for e in rec.log if e[0] in ('permutation', 'rand')]
+            perms = [d[3] for d in draws if d[0] == 'permutation']
+            rands = [np.array(d[3]).reshape(-1).tolist() for d in draws if d[0] == 'rand']
+            if code != 0 and code != 7 and k > 0:
+                perms = [] if paired else [list(range(nx + ny))] * k
+                rands = [[0.25] * nx] * k if paired else []
+            if code == -1:
+                ctx.mismatch('nbs_bct:raises', 'unexpected exception ' + err, case, None, err); continue
+            lines.append(model_line(x, y, thr, tail, paired, perms, rands)); pend.append((case, None, None, None, code, 'nbs_bct'))
+            continue
         xd, yd = edge_vectors(x, n), edge_vectors(y, n)
+        fthr = Fraction(thr)
         try:
-            S = supra_edges(xd, yd, n, thr, tail, paired)
-        except NearTie:
-            ctx.count('skipped_near_tie'); continue
+            S = supra_edges(xd, yd, n, fthr, tail, paired)
+        except NearTie as e:
+            ctx.count('skipped_' + str(e)); continue
         rec = Rec(seed)
         x0, y0 = x.copy(), y.copy()
+        code = 0
         try:
-            pv, adj, null = quiet(bct.nbs_bct, x, y, thr, k=k, tail=tail, paired=paired, seed=rec)
+            pv, adj, null = quiet(bct.nbs_bct, x, y, thr, k=k, tail=tail, paired=paired, verbose=verbose, seed=rec)
             err = None
         except bct.utils.BCTParamError as e:
-            pv = adj = null = None; err = 'param:' + str(e)
+            pv = adj = null = None; err = 'param:' + str(e); code = exn_code(e)
         except Timeout:
             ctx.fail('nbs_bct:timeout', 'did not terminate', case); continue
         except Exception as e:
-            pv = adj = null = None; err = repr(e)
+            pv = adj = null = None; err = repr(e); code = exn_code(e)
         ctx.case(case, nontrivial=bool(S), sample_every=41)
         ctx.count('family:' + fam); ctx.count('n=%d' % n); ctx.count('tail:' + tail); ctx.count('paired' if paired else 'unpaired')
         ctx.count('groups:%s' % ('equal' if nx == ny else 'unequal'))
+        if verbose:
+            ctx.count('verbose')
         draws = [e for e in rec.log if e[0] in ('permutation', 'rand')]
-        near = False
+        near = None
         # ------------ direct oracle on the implementation
+        ok = False
         if not S:
-            ctx.count('no_supra')
+            ctx.count('no_supra'); ctx.count('no_supra:' + fam)
             ctx.check(err is not None and err.startswith('param'), 'nbs_bct:unsuitable', 'no suprathreshold connection: BCTParamError expected, got %s' % (err or 'a result'), case)
         elif err:
             ctx.fail('nbs_bct:raises', 'suprathreshold connections exist but the call raised ' + err, case)
@@ -286,18 +676,11 @@ def run(ctx):
                 # null values: largest component under each recorded relabelling
                 if ctx.check(len(draws) == k, 'nbs_bct:draws', '%d recorded draws for k=%d' % (len(draws), k), case) and len(null) == k:
                     for u, d in enumerate(draws):
-                        if paired:
-                            s = np.sign(0.5 - np.array(d[3]).reshape(-1))
-                            xp = {e: [a if s[q] > 0 else b for q, (a, b) in enumerate(zip(xd[e], yd[e]))] for e in xd}
-                            yp = {e: [b if s[q] > 0 else a for q, (a, b) in enumerate(zip(xd[e], yd[e]))] for e in xd}
-                        else:
-                            p = d[3]
-                            xp = {e: [(xd[e] + yd[e])[q] for q in p[:nx]] for e in xd}
-                            yp = {e: [(xd[e] + yd[e])[q] for q in p[nx:]] for e in xd}
+                        xp, yp = relabel(xd, yd, d[3], paired, nx)
                         try:
-                            Sp = supra_edges(xp, yp, n, thr, tail, paired)
-                        except NearTie:
-                            near = True; break
+                            Sp = supra_edges(xp, yp, n, fthr, tail, paired)
+                        except NearTie as e:
+                            near = str(e); break
                         want = max_links(n, Sp)
                         if not ctx.check(null[u] == want, 'nbs_bct:null_is_max_component',
                                          'null[%d]=%r but the largest component under relabelling %s has %d connections' % (u, float(null[u]), d[3], want), case):
@@ -317,37 +700,77 @@ def run(ctx):
                 except bct.utils.BCTParamError as e:
                     ctx.fail('nbs_bct:reorder_subjects', 'reordered call raised %s' % e, case)
         if near:
-            ctx.count('skipped_near_tie_perm'); continue
+            ctx.count('skipped_perm_' + near); continue
         # ------------ model line (the draws the code consumed)
-        if err is None or err.startswith('param'):
+        if code != -1:
             perms = [d[3] for d in draws if d[0] == 'permutation']
             rands = [np.array(d[3]).reshape(-1).tolist() for d in draws if d[0] == 'rand']
             if err is not None:
                 # the code raised before drawing: give the model k dummy draws of the right kind
                 perms = [] if paired else [list(range(nx + ny))] * k
                 rands = [[0.25] * nx] * k if paired else []
-            line = ' '.join(['nbs', str(n), enc_stack(x), enc_stack(y), enc_q(thr), str(TAILS.index(tail)), enc_bool(paired),
-                             str(len(perms))] + [enc_list(p) for p in perms] + [str(len(rands))] + [enc_list(q, enc_q) for q in rands])
-            lines.append(line); pend.append((case, pv, adj, null, err))
+            lines.append(model_line(x, y, thr, tail, paired, perms, rands)); pend.append((case, pv, adj, null, code, 'nbs_bct'))
+        else:
+            ctx.mismatch('nbs_bct:raises', 'unexpected exception ' + str(err), case, None, err)
+        # ------------ nbs_parallel.nbs_bct: the same statistic code, duplicated (tie by harness)
+        if ok and npar_done < NPAR and n <= 5 and t % 3 == 0:
+            npar_done += 1
+            pseed = int(seed % 100000)
+            pcase = dict(case, fn='nbs_parallel.nbs_bct', seed=pseed, workers=1)
+            try:
+                ppv, padj, pnull = quiet(npar.nbs_bct, x, y, thr, k=k, tail=tail, paired=paired, verbose=verbose, seed=pseed, workers=1)
+            except Exception as e:
+                ctx.fail('nbs_parallel.nbs_bct:raises', 'bct.nbs_bct returns on this input but nbs_parallel.nbs_bct raised %r' % e, pcase); continue
+            ctx.count('nbs_parallel')
+            ctx.check(np.array_equal(padj, adj), 'nbs_parallel.nbs_bct:adj', 'adjacency differs from bct.nbs_bct on the same input', pcase)
+            seeds = np.random.RandomState(pseed).randint(2 ** 31 - 1, size=k)
+            pdraws = [np.random.RandomState(int(s)).rand(1, nx).reshape(-1).tolist() if paired else np.random.RandomState(int(s)).permutation(nx + ny).tolist() for s in seeds]
+            good = len(pnull) == k
+            ctx.check(good, 'nbs_parallel.nbs_bct:k_null_values', '%d null values for k=%d' % (len(pnull), k), pcase)
+            pnear = False
+            if good:
+                for u, d in enumerate(pdraws):
+                    xp, yp = relabel(xd, yd, d, paired, nx)
+                    try:
+                        Sp = supra_edges(xp, yp, n, fthr, tail, paired)
+                    except NearTie:
+                        pnear = True; break
+                    want = max_links(n, Sp)
+                    if not ctx.check(pnull[u] == want, 'nbs_parallel.nbs_bct:null_is_max_component',
+                                     'null[%d]=%r but the largest component under the relabelling of permutation seed %d has %d connections' % (u, float(pnull[u]), int(seeds[u]), want), pcase):
+                        break
+                for l in range(1, len(ppv) + 1):
+                    size = int((padj == l).sum()) // 2
+                    if not ctx.check(abs(ppv[l - 1] - float(np.mean(pnull >= size))) < 1e-12, 'nbs_parallel.nbs_bct:pval_def',
+                                     'pvals[%d]=%r is not the fraction of the returned null values >= %d (%r)' % (l - 1, float(ppv[l - 1]), size, float(np.mean(pnull >= size))), pcase):
+                        break
+            if good and not pnear:
+                lines.append(model_line(x, y, thr, tail, paired, [] if paired else pdraws, pdraws if paired else []))
+                pend.append((pcase, None, padj, pnull, 0, 'nbs_parallel.nbs_bct'))
+    for kk, v in STAT.items():
+        ctx.count(kk, v)
 
     # ---------------- correspondence: extracted Coq model fed with the recorded draws
     res = run_model(ID, lines)
     ctx.model_cases = len(lines)
-    for (case, pv, adj, null, err), m in zip(pend, res):
+    for (case, pv, adj, null, code, fn), m in zip(pend, res):
         if is_err(m):
             ctx.mismatch('model-error', m['error'], case); continue
-        if m is None or err:
-            if not (m is None and err):
-                ctx.mismatch('nbs_bct:raises', 'model %s / impl %s' % ('raises' if m is None else 'returns', err or 'returns'), case, m, err)
+        mcode = m['exn'] if isinstance(m, dict) else 0
+        if mcode or code:
+            if mcode != code:
+                ctx.mismatch(fn + ':raises', 'model: %s / implementation: %s' % (EXN_NAME.get(mcode, 'returns'), EXN_NAME.get(code, 'returns')), case, mcode, code)
             else:
-                ctx.count('corr:both_raise')
+                ctx.count('corr:both_raise:' + EXN_NAME[code])
             continue
+        if adj is None:
+            ctx.count('corr:both_return'); continue
         mp = [dec_q(v) for v in m[0]]; madj = [[dec_z(v) for v in row] for row in m[1]]; mnull = [dec_q(v) for v in m[2]]
         if not np.array_equal(np.array(madj, float).reshape(adj.shape), adj):
-            ctx.mismatch('nbs_bct:adj', 'adjacency/labels differ', case, madj, adj)
+            ctx.mismatch(fn + ':adj', 'adjacency/labels differ', case, madj, adj)
         elif len(mnull) != len(null) or any(float(a) != float(b) for a, b in zip(mnull, null)):
-            ctx.mismatch('nbs_bct:null', 'null values differ', case, [str(v) for v in mnull], null)
-        elif len(mp) != len(pv) or any(not frac_close(a, float(b)) for a, b in zip(mp, pv)):
-            ctx.mismatch('nbs_bct:pvals', 'p-values differ', case, [str(v) for v in mp], pv)
+            ctx.mismatch(fn + ':null', 'null values differ', case, [str(v) for v in mnull], null)
+        elif pv is not None and (len(mp) != len(pv) or any(not frac_close(a, float(b)) for a, b in zip(mp, pv))):
+            ctx.mismatch(fn + ':pvals', 'p-values differ', case, [str(v) for v in mp], pv)
         else:
-            ctx.count('corr:identical')
+            ctx.count('corr:identical' if fn == 'nbs_bct' else 'corr:identical_parallel')
